@@ -30,8 +30,8 @@ func init() {
 }
 
 type litSpec struct {
-	fn     string   // function (root name) that builds the literal; "$" suffix selects nested literal functions too
-	typ    string   // struct type
+	fn     string              // function (root name) that builds the literal; "$" suffix selects nested literal functions too
+	typ    string              // struct type
 	fields map[string][]string // field -> allowed provenance classes
 }
 
@@ -207,7 +207,11 @@ func c20Parent(c *core.Ctx, r *core.Reporter) {
 			r.Unknown(key, sites[0].Pos(), "argument index out of range (signature changed)")
 			continue
 		}
-		ok, _ := core.OnlyClasses(args[sp.arg], sp.allowed...)
+		allowed := sp.allowed
+		if nonNilGuarded(sites[0], args[sp.arg]) {
+			allowed = append(append([]string{}, allowed...), "nil") // `var x *T; ...; if x != nil { f(x) }`
+		}
+		ok, _ := core.OnlyClasses(args[sp.arg], allowed...)
 		if ok {
 			r.OK(key, sites[0].Pos(), "argument provenance %v", core.Classes(args[sp.arg]))
 		} else {
@@ -366,4 +370,175 @@ func c20Alias(c *core.Ctx, r *core.Reporter) {
 		}
 	}
 	_ = strings.Join
+}
+
+func init() {
+	register(&core.Rule{Name: "C20/PAIR-occurrence", Props: []string{"C20", "C01"}, Min: 1,
+		Doc: "every included occurrence of a field is recorded in the planned field's occurrence list", Run: c20Occurrence})
+	register(&core.Rule{Name: "C01/FLOW-mergedsub", Props: []string{"C01", "C20"}, Min: 2,
+		Doc: "the sub-selection of a merged field is planned from all of its occurrences, never from one picked by a constant index", Run: c01MergedSub})
+}
+
+// c20Occurrence: in Plan.collectInto, once a field selection has passed its @skip/@include test, every path back to the
+// selection loop stores into some fieldPlan.fieldASTs (append to the merged entry, or a new entry holding it).
+// A path that skips the store (only composite repeats kept, say) loses occurrences: ResolveInfo.FieldASTs and the
+// locations of field errors no longer list every place the field is selected.
+func c20Occurrence(c *core.Ctx, r *core.Reporter) {
+	fn := c.Func("", "Plan.collectInto")
+	pd := c.Func("", "planDirectives")
+	if fn == nil || pd == nil {
+		r.Unknown("Plan.collectInto/Field/occurrence-recorded", token.NoPos, "not found")
+		return
+	}
+	// the planDirectives call of the Field arm: its argument is the Directives field of an *ast.Field
+	var start *ssa.BasicBlock
+	for _, site := range core.CallsTo(fn, pd, false) {
+		args := site.Common().Args
+		if len(args) == 0 || !core.HasClass(args[0], "field:Field.Directives") {
+			continue
+		}
+		call, _ := site.(*ssa.Call)
+		if call == nil {
+			continue
+		}
+		for _, ref := range *call.Referrers() {
+			ex, ok := ref.(*ssa.Extract)
+			if !ok || ex.Index != 1 {
+				continue
+			}
+			for _, u := range *ex.Referrers() {
+				if iff, ok := u.(*ssa.If); ok {
+					start = iff.Block().Succs[1] // not alwaysSkip
+				}
+			}
+		}
+	}
+	if start == nil {
+		r.Unknown("Plan.collectInto/Field/occurrence-recorded", fn.Pos(), "could not find the alwaysSkip test of the Field arm")
+		return
+	}
+	rec := map[*ssa.BasicBlock]bool{}
+	core.Instrs(fn, func(in ssa.Instruction) {
+		if st, ok := in.(*ssa.Store); ok {
+			if f := core.FieldOf(st.Addr); f != nil && f.Name() == "fieldASTs" {
+				rec[st.Block()] = true
+			}
+		}
+	})
+	if len(rec) == 0 {
+		r.Bad("Plan.collectInto/Field/occurrence-recorded", fn.Pos(), "collectInto never stores into fieldPlan.fieldASTs")
+		return
+	}
+	loops := core.Loops(fn)
+	var leak *ssa.BasicBlock
+	if !rec[start] {
+		for b := range core.ReachableAvoiding(start, rec) {
+			if b == start {
+				continue
+			}
+			if _, isHeader := loops[b]; isHeader {
+				leak = b
+			}
+			if len(b.Instrs) > 0 {
+				if _, isRet := b.Instrs[len(b.Instrs)-1].(*ssa.Return); isRet {
+					leak = b
+				}
+			}
+		}
+	}
+	r.Check(leak == nil, "Plan.collectInto/Field/occurrence-recorded", start.Instrs[0].Pos(),
+		"every path from the include test of a field selection back to the selection loop stores into fieldASTs",
+		"collectInto has a path on which an included field selection is not added to any fieldPlan.fieldASTs: a field selected several times under one response key (directly and through fragments) reaches its resolver with only some of its occurrences in ResolveInfo.FieldASTs, and its field errors carry only those locations")
+}
+
+// c01MergedSub: wherever the planner plans a sub-selection, the selection set comes either from the operation or from a
+// range over all occurrences of the merged field. A selection set taken from fieldASTs[<constant>] plans one
+// occurrence's children only: fields selected under the other occurrences (`a { x } ... { a { y } }`) are missing
+// from the response.
+func c01MergedSub(c *core.Ctx, r *core.Reporter) {
+	targets := map[string]bool{"Plan.planSelectionSet": true, "Plan.collectInto": true}
+	n := 0
+	per := map[string]int{}
+	for _, fn := range c.LibFuncs() {
+		for _, site := range core.CallSites(fn) {
+			callee := site.Common().StaticCallee()
+			if callee == nil || !targets[fnKey(callee)] {
+				continue
+			}
+			// the *ast.SelectionSet argument
+			for _, a := range site.Common().Args {
+				if core.TypeName(a.Type()) != "SelectionSet" {
+					continue
+				}
+				n++
+				name := fnKey(fn)
+				per[name]++
+				key := fmt.Sprintf("%s->%s#%d", name, callee.Name(), per[name])
+				if idx := constIndexedOccurrence(a); idx != "" {
+					r.Bad(key, site.Pos(), "%s plans a sub-selection from %s, one occurrence picked by a constant index, instead of from all occurrences of the merged field: children selected only under the other occurrences of the same response key are dropped from the response", name, idx)
+				} else {
+					r.OK(key, site.Pos(), "selection set: %s", core.Join(core.Classes(a)))
+				}
+			}
+		}
+	}
+	if n == 0 {
+		r.Unknown("planner-sub-selections", token.NoPos, "no planSelectionSet / collectInto call found")
+	}
+}
+
+// constIndexedOccurrence: v is X[<const>].SelectionSet with X a []*ast.Field.
+func constIndexedOccurrence(v ssa.Value) string {
+	u, ok := v.(*ssa.UnOp)
+	if !ok || u.Op != token.MUL {
+		return ""
+	}
+	fa, ok := u.X.(*ssa.FieldAddr)
+	if !ok {
+		return ""
+	}
+	if f := core.FieldOf(fa); f == nil || f.Name() != "SelectionSet" {
+		return ""
+	}
+	base, ok := fa.X.(*ssa.UnOp)
+	if !ok || base.Op != token.MUL {
+		return ""
+	}
+	ia, ok := base.X.(*ssa.IndexAddr)
+	if !ok {
+		return ""
+	}
+	if i, isConst := core.ConstInt(ia.Index); isConst {
+		return fmt.Sprintf("%s[%d].SelectionSet", core.Join(core.Classes(ia.X)), i)
+	}
+	return ""
+}
+
+// nonNilGuarded: the call is dominated by the true branch of `v != nil` (or the false branch of `v == nil`).
+func nonNilGuarded(site ssa.CallInstruction, v ssa.Value) bool {
+	fn := site.Parent()
+	guarded := false
+	core.Instrs(fn, func(in ssa.Instruction) {
+		iff, ok := in.(*ssa.If)
+		if !ok {
+			return
+		}
+		bo, ok := iff.Cond.(*ssa.BinOp)
+		if !ok || bo.X != v || !core.IsNilConst(bo.Y) {
+			return
+		}
+		var succ *ssa.BasicBlock
+		switch bo.Op {
+		case token.NEQ:
+			succ = iff.Block().Succs[0]
+		case token.EQL:
+			succ = iff.Block().Succs[1]
+		default:
+			return
+		}
+		if succ.Dominates(site.Block()) {
+			guarded = true
+		}
+	})
+	return guarded
 }
